@@ -675,6 +675,10 @@ def _copy(ex, v):
         return o
     if isinstance(v, SymList):
         return SymList(v.arr, v.length, v.is_int)
+    if isinstance(v, SRef):
+        return RefCopy(v)
+    if hasattr(v, "sym_copy"):
+        return v.sym_copy(ex)
     return v
 
 
